@@ -106,3 +106,15 @@ Definition only_calls (tab : fn_table) : bool :=
 
 Definition expected_codec_entry_points : list string :=
   ["decoder.go:decode"; "encoder.go:encode"; "query.go:decodeQuery"].
+
+(* no state outside the cache on the encode/decode path: the structs hold only the pointer
+   chain Codec -> Reflector -> SchemaCache and immutable options; package-level variables
+   are the package-level default codec, an error value and read-only tables; nothing
+   assigns to any of them after initialisation *)
+Definition expected_reflector_fields : list string := ["schemaSet:*j5schema.SchemaCache"].
+Definition expected_codec_fields : list string :=
+  ["refl:*j5reflect.Reflector"; "resolver:MessageTypeResolver"; "addProtoToAny:bool"].
+Definition expected_cache_fields : list string := ["mu:sync.Mutex"; "packages:map"; "registered:slice"].
+Definition expected_codec_pkg_vars : list string := ["Global:call:NewCodec"; "errInvalidUTF8:call:errors.New"].
+Definition expected_reflect_pkg_vars : list string := [].
+Definition expected_schema_pkg_vars : list string := ["floatKinds:map"; "intKinds:map"; "wellKnownStringPatterns:map"].
